@@ -299,7 +299,18 @@ def parse_register(text, name):
 def validate_trace(ctx, trace_module, constants, obs_path, prop, tagbase, chunk=60000, parallel=6, spec="Spec"):
     """Validates obs_path with spec/<trace_module>.tla in chunks.  Returns (bad, drift, consumed)."""
     lines = [x for x in open(obs_path).read().split("\n") if x.strip()]
-    chunks = [lines[i:i + chunk] for i in range(0, len(lines), chunk)] or [[]]
+    # chunks never split the observations of one case (a stateful history must stay in one piece)
+    case_re = re.compile(r'"case":\s*(\d+)')
+    chunks, cur, last_case = [], [], None
+    for x in lines:
+        m = case_re.search(x)
+        c = m.group(1) if m else None
+        if len(cur) >= chunk and c != last_case:
+            chunks.append(cur)
+            cur = []
+        cur.append(x)
+        last_case = c
+    chunks.append(cur)
     bad, drift, consumed = [], [], 0
     cfg_path = os.path.join(ctx["dir"], tagbase + ".cfg")
     write_cfg(cfg_path, dict(spec=spec, constants=constants, post="Report"))
